@@ -192,6 +192,21 @@ def applyFilter (f : Filter) (v : Val) : Except Err Val :=
     | v => .ok v)
   | .other _ => .error .unsupported
 
+/-- the attributes (CPython 3.12, `dir(type)`) that a str / int / bool / list / None itself has: on these
+names `x.a` is a bound method or a number, which the universe does not contain -/
+def builtinHasAttr (v : Val) (a : String) : Bool :=
+  a.startsWith "__" ||
+  (match v with
+   | .str _ => ["capitalize", "casefold", "center", "count", "encode", "endswith", "expandtabs", "find", "format",
+       "format_map", "index", "isalnum", "isalpha", "isascii", "isdecimal", "isdigit", "isidentifier", "islower",
+       "isnumeric", "isprintable", "isspace", "istitle", "isupper", "join", "ljust", "lower", "lstrip", "maketrans",
+       "partition", "removeprefix", "removesuffix", "replace", "rfind", "rindex", "rjust", "rpartition", "rsplit",
+       "rstrip", "split", "splitlines", "startswith", "strip", "swapcase", "title", "translate", "upper", "zfill"].contains a
+   | .int _ | .bool _ => ["as_integer_ratio", "bit_count", "bit_length", "conjugate", "denominator", "from_bytes",
+       "imag", "is_integer", "numerator", "real", "to_bytes"].contains a
+   | .list _ => ["append", "clear", "copy", "count", "extend", "index", "insert", "pop", "remove", "reverse", "sort"].contains a
+   | _ => false)
+
 structure Env where
   base : List (String × Val)      -- the context passed to `template.render(**context)`
   vars : List (String × Val)      -- `set` / loop / macro-parameter bindings, innermost first
@@ -210,7 +225,9 @@ def eval (env : Env) : Expr → Except Err Val
     match (← eval env e) with
     | .dict kvs => pure (lookupKey kvs a)
     | .undef => throw .undefined
-    | _ => throw (.unmodelled "attribute of a builtin value")
+    | v =>
+      -- `Environment.getattr`: `getattr(v, a)` fails, `v[a]` fails (TypeError), the result is Undefined
+      if builtinHasAttr v a then throw (.unmodelled "attribute of a builtin value") else pure .undef
   | .item e i => do
     let v ← eval env e
     let k ← eval env i
